@@ -96,3 +96,53 @@ e2e!(chain_obj_p4, 4, 1);
 e2e!(array_store_p8, 8, 2);
 e2e!(write_p1, 1, 0);
 e2e!(write_p5, 5, 0);
+
+/// descriptor reads (C05: a failing read marks at least everything it could have touched; C16: that whole-target
+/// mark is the single documented exception, a successful read marks exactly the bytes delivered)
+#[kani::proof]
+#[kani::unwind(18)]
+fn fd_read_marks() {
+    use crate::cffi;
+    use crate::recorder::Recorder;
+    use std::fs::File;
+    use std::os::fd::FromRawFd;
+    use vm_memory::ReadVolatile;
+    cffi::link();
+    cffi::link_io();
+    let mut mem: [u8; N] = kani::any();
+    let rec = Recorder::new();
+    let root: usize = kani::any();
+    kani::assume(root <= usize::MAX / 2);
+    let (o, b): (usize, usize) = (kani::any(), kani::any());
+    kani::assume(o <= N && b <= N - o);
+    let ret: isize = kani::any();
+    kani::assume(ret >= -1);
+    unsafe {
+        cffi::IO_RET[0] = ret;
+        cffi::IO_ERRNO[0] = libc::EIO;
+    }
+    // SAFETY: descriptor only reaches the models
+    let mut f = unsafe { File::from_raw_fd(5) };
+    let m: &mut [u8] = &mut mem[o..o + b];
+    let mut s = unsafe { VolatileSlice::with_bitmap(m.as_mut_ptr(), m.len(), rec.slice_at(root), None) };
+    let r = f.read_volatile(&mut s);
+    core::mem::forget(f);
+    let moved = if ret < 0 { 0 } else if ret as usize > b { b } else { ret as usize };
+    if r.is_err() {
+        // conservative: the whole target, and nothing outside it
+        let j: usize = kani::any();
+        kani::assume(j < b);
+        assert!(rec.covers(root + j));
+        assert!(b == 0 || rec.all_within(root, b));
+    } else if moved == 0 {
+        assert!(rec.is_clean());
+    } else {
+        let j: usize = kani::any();
+        kani::assume(j < moved);
+        assert!(rec.covers(root + j));
+        assert!(rec.all_within(root, moved));
+    }
+    kani::cover!(r.is_err() && b > 0);
+    kani::cover!(r.is_ok() && moved > 0 && moved < b);
+    leak(r);
+}
